@@ -26,6 +26,8 @@ val mul : nat -> nat -> nat
 
 val sub : nat -> nat -> nat
 
+val eqb : bool -> bool -> bool
+
 module Nat :
  sig
   val sub : nat -> nat -> nat
@@ -47,6 +49,8 @@ module Nat :
   val div : nat -> nat -> nat
 
   val modulo : nat -> nat -> nat
+
+  val iter : nat -> ('a1 -> 'a1) -> 'a1 -> 'a1
  end
 
 type positive =
@@ -162,6 +166,10 @@ module N :
 
 val hd : 'a1 -> 'a1 list -> 'a1
 
+val tl : 'a1 list -> 'a1 list
+
+val nth : nat -> 'a1 list -> 'a1 -> 'a1
+
 val nth_error : 'a1 list -> nat -> 'a1 option
 
 val rev : 'a1 list -> 'a1 list
@@ -177,6 +185,8 @@ val fold_right : ('a2 -> 'a1 -> 'a1) -> 'a1 -> 'a2 list -> 'a1
 val existsb : ('a1 -> bool) -> 'a1 list -> bool
 
 val forallb : ('a1 -> bool) -> 'a1 list -> bool
+
+val filter : ('a1 -> bool) -> 'a1 list -> 'a1 list
 
 val firstn : nat -> 'a1 list -> 'a1 list
 
@@ -246,6 +256,8 @@ val on_range : nat -> nat -> ('a1 list -> 'a1 list) -> 'a1 list -> 'a1 list
 
 val insert_n : nat -> nat -> 'a1 -> 'a1 list -> 'a1 list
 
+val last_opt : 'a1 list -> 'a1 option
+
 val take_while : ('a1 -> bool) -> 'a1 list -> 'a1 list
 
 val skip_while : ('a1 -> bool) -> 'a1 list -> 'a1 list
@@ -283,6 +295,10 @@ val color_eqb : color -> color -> bool
 val inten_eqb : inten -> inten -> bool
 
 val pen_eqb : pen -> pen -> bool
+
+val cell_eqb : cell -> cell -> bool
+
+val line_eqb : line -> line -> bool
 
 type pstate =
 | Ground
@@ -508,6 +524,8 @@ val sGRP_O3 : n
 val sGRP_O4 : n
 
 val blank_cell : pen -> cell
+
+val default_cell : cell
 
 val pen_is_default : pen -> bool
 
@@ -998,3 +1016,316 @@ val vt_cursor : vt -> (nat * nat) * bool
 val vt_ckm : vt -> bool
 
 val vt_dump : vt -> n list res
+
+val charset_eqb : charset -> charset -> bool
+
+val btype_eqb : btype -> btype -> bool
+
+val ctx_eqb : saved_ctx -> saved_ctx -> bool
+
+val lines_eqb : line list -> line list -> bool
+
+val limit_eqb : (n * n) option -> (n * n) option -> bool
+
+val buffer_eqb : buffer -> buffer -> bool
+
+val term_scalars_eqb : term -> term -> bool
+
+val term_eqb : term -> term -> bool
+
+val param_eqb : param -> param -> bool
+
+val parser_eqb : parser0 -> parser0 -> bool
+
+val vt_eqb : vt -> vt -> bool
+
+val tview : term -> line list
+
+val tsb : term -> line list
+
+val set_screen : term -> line list -> line list -> term
+
+val set_view : term -> line list -> term
+
+val set_cursor : term -> nat -> nat -> bool -> term
+
+val buffer_vis_eqb : buffer -> buffer -> bool
+
+val visible_eqb : term -> term -> bool
+
+val viscol : term -> nat
+
+val n1 : n -> nat
+
+val row_at : line list -> nat -> line
+
+val upd_row : nat -> (line -> line) -> line list -> line list
+
+val unwrap : line -> line
+
+val mark_wrapped : line -> line
+
+val blanks : nat -> pen -> cell list
+
+val spec_scroll_up :
+  nat -> nat -> nat -> pen -> nat -> line list -> line list * line list
+
+val spec_scroll_down :
+  nat -> nat -> nat -> pen -> nat -> line list -> line list
+
+val apply_scroll_up : term -> nat -> nat -> nat -> term
+
+val apply_scroll_down : term -> nat -> nat -> nat -> term
+
+val vt100_glyphs : n list
+
+val spec_translate : charset -> n -> n
+
+val spec_active_cs : term -> charset
+
+val set_cell : nat -> cell -> line -> line
+
+val insert_cell : nat -> cell -> line -> line
+
+val spec_print_glyph : term -> n -> term
+
+val spec_print : term -> n -> term
+
+val spec_rep : term -> n -> term
+
+val spec_up : term -> nat -> nat
+
+val spec_down : term -> nat -> nat
+
+val spec_abs_row : term -> nat -> nat
+
+val stops_after : nat list -> nat -> nat list
+
+val stops_before : nat list -> nat -> nat list
+
+val spec_next_tab : term -> nat -> nat
+
+val spec_prev_tab : term -> nat -> nat
+
+val spec_home : term -> term
+
+val spec_cursor : term -> func -> term option
+
+val spec_ildl_range : term -> nat * nat
+
+val spec_scroll : term -> func -> term option
+
+val may_touch_scrollback : func -> bool
+
+val clear_cells : nat -> nat -> pen -> line -> line
+
+val spec_edit : term -> func -> term option
+
+val is_italic : pen -> bool
+
+val is_underline : pen -> bool
+
+val is_strikethrough : pen -> bool
+
+val is_blink : pen -> bool
+
+val is_inverse : pen -> bool
+
+type pen_obs = { o_fg : color option; o_bg : color option; o_int : inten;
+                 o_italic : bool; o_underline : bool; o_blink : bool;
+                 o_inverse : bool; o_strike : bool }
+
+val observe : pen -> pen_obs
+
+val default_obs : pen_obs
+
+val spec_sgr_one : pen_obs -> sgr_op -> pen_obs
+
+val obs_eqb : pen_obs -> pen_obs -> bool
+
+val spec_sgr_code : n -> sgr_op option
+
+val byte : n -> n
+
+val first_part : n list -> n
+
+val spec_sgr : nat -> n list list -> sgr_op list
+
+val spec_sgr_params : param list -> sgr_op list
+
+val is_stop : nat list -> nat -> bool
+
+val default_stop : nat -> nat -> bool
+
+val saved_of : term -> btype -> saved_ctx
+
+val spec_saved_now : term -> saved_ctx
+
+val spec_restore : term -> term
+
+val line_ok : nat -> line -> bool
+
+val last_unwrapped : line list -> bool
+
+val buffer_geom_ok : buffer -> bool
+
+val geom_ok : term -> bool
+
+val strictly_increasing_below : nat -> nat option -> nat list -> bool
+
+val inrng : n -> n -> n -> bool
+
+type strkind =
+| KOsc
+| KDcs
+| KSos
+
+val payload_ok : strkind -> n -> bool
+
+val skip_string : strkind -> n list -> n list option
+
+val csi_finals_plain : n list
+
+val mem_N : n -> n list -> bool
+
+val csi_implemented : n option -> n list -> n -> bool
+
+val esc_implemented : n list -> n -> bool
+
+val split_while : (n -> bool) -> n list -> n list * n list
+
+val parse_csi : n list -> (((n option * n list) * n) * n list) option
+
+val parse_esc : n list -> ((n list * n) * n list) option
+
+val c0_unassigned : n -> bool
+
+val c1_unassigned : n -> bool
+
+val inert_item : n list -> n list option
+
+val inert_go : nat -> n list -> bool
+
+val inert_spec : n list -> bool
+
+val last_N : n list -> n option
+
+val kf_c20_csi : n option -> n list -> n -> bool
+
+val kf_c20_esc : n list -> n -> bool
+
+val kf_c20_go : nat -> n list -> bool
+
+val kf_c20 : n list -> bool
+
+val holds_C02_state : vt -> bool
+
+val holds_C02_call : op -> vt -> nat list -> bool
+
+val holds_C04 : vt -> func -> vt -> bool
+
+val holds_C05 : vt -> func -> vt -> bool
+
+val holds_C06 : vt -> func -> vt -> bool
+
+val holds_C07 : vt -> func -> vt -> bool
+
+val holds_C08 : vt -> func -> vt -> bool
+
+val holds_C13 : vt -> bool
+
+val holds_C15 : line list -> vt -> nat list -> bool
+
+val is_alt_b : term -> bool
+
+val holds_C16 : vt -> func -> vt -> bool
+
+val clamp_ctx : saved_ctx -> nat -> nat -> saved_ctx
+
+val other_screen : btype -> btype
+
+val holds_C17 : vt -> func -> vt -> bool
+
+val holds_C17_resize : vt -> vt -> bool
+
+val strictly_sorted : nat list -> bool
+
+val stops_agree : nat -> nat list -> (nat -> bool) -> bool
+
+val holds_C18 : vt -> func -> vt -> bool
+
+val holds_C18_resize : vt -> vt -> bool
+
+val tabs_are_default : term -> bool
+
+val holds_C19 : vt -> func -> vt -> bool
+
+val holds_C20 : vt -> n list -> vt -> bool
+
+val claims_inert : vt -> n list -> bool
+
+val known_C20 : n list -> bool
+
+val logical_go : line list -> cell list -> cell list list
+
+val logical : line list -> cell list list
+
+val trimd : cell list -> cell list
+
+val logical_t : line list -> cell list list
+
+val curs_go : line list -> nat -> nat -> nat -> nat -> nat * nat
+
+val curs : buffer -> nat -> nat -> nat * nat
+
+val cells_eqb : cell list -> cell list -> bool
+
+val is_prefix : cell list -> cell list -> bool
+
+val all_empty : cell list list -> bool
+
+val tail_ok : cell list list -> cell list list -> bool
+
+val eq_upto_blank : cell list -> cell list -> bool
+
+val resize_preserves : buffer -> nat -> nat -> buffer -> nat -> nat -> bool
+
+val split_crlf : n list -> n list -> n list list
+
+val printable_c09 : n -> bool
+
+val text_eqb : n list list -> n list list -> bool
+
+val holds_C09 : n list -> n list list -> n list list -> bool
+
+val holds_C10 : vt -> vt -> bool
+
+val holds_C16_resized : vt -> func -> vt -> bool
+
+val obs_buffer_eqb : buffer -> buffer -> bool
+
+val obs_eqb_term : term -> term -> bool
+
+val obs_params : parser0 -> n list list
+
+val obs_eqb_parser : parser0 -> parser0 -> bool
+
+val holds_C12 : vt -> vt -> bool
+
+val known_C12 : vt -> bool
+
+val holds_C12_lines : vt -> vt -> bool
+
+val dumpable : term -> bool
+
+val kf1_C11 : term -> bool
+
+val kf2_C11 : term -> bool
+
+val kf3_C11 : term -> bool
+
+val norm_C11 : term -> term
+
+val holds_C11 : vt -> vt -> bool
+
+val holds_C14 : line list -> line list -> line list -> bool
